@@ -9,6 +9,9 @@ rows = []
 for item in sys.argv[2:]:
     pid, n = item.split("/")
     src = f"/tmp/mut-out/{pid}/{n}"
+    if not (os.path.exists(f"{src}/meta.json") and os.path.exists(f"{src}/patch.diff")):
+        print(item, "-> not delivered yet, skipped", flush=True)
+        continue
     extra = os.environ.get("EXTRA_IDS", "").split()
     out = subprocess.run(["/verif/tools/try_seeded.sh", wt, f"{src}/patch.diff", pid] + extra,
                          capture_output=True, text=True).stdout
